@@ -162,9 +162,11 @@ func c10Run(rc *sim.RunCtx) {
 			return
 		}
 		compared++
-		if got.compileErr != want.compileErr && (got.innerErr != "" && "error="+got.innerErr == want.val || want.innerErr != "" && "error="+want.innerErr == got.val) {
-			// one side met the error while folding a constant expression (an optimizer error wrapping it), the
-			// other at run time: how far the optimizer gets depends on its budget, both report the same error
+		if (got.innerErr != "") != (want.innerErr != "") {
+			// one side met a runtime error while folding a constant expression (an optimizer error wrapping it) and
+			// refused to compile; the other did not fold that expression and met the error at run time, if at all -
+			// where it ends the run or is caught by an enclosing try. How far the optimizer gets depends on its
+			// budget, which a session refills for every fragment: nothing about this fragment is comparable.
 			rc.Probe("fragment-failed:optimizer-vs-runtime")
 			break
 		}
